@@ -2,6 +2,8 @@
   C19 — ELF-section iteration decodes 32/64-bit entries in order, inside the tag.
   `T` = permitted extent of the tag, `v.n = size − 20` = number of section bytes `L`.
 -/
+import Mb2.Props.FnsTblElf
+import Mb2.Props.Layout
 import Mb2.Props.FnsGetters
 import Mb2.Props.FnsDstMbi
 import Mb2.Props.FnsElfIter
